@@ -45,7 +45,7 @@ def write_tree(root, contents, nested=False, single=False, name=NAME, skip=()):
     """Write files under root/name/...; returns content path.  skip: file indexes not created."""
     top = os.path.join(root, name)
     if single:
-        if 0 not in skip:
+        if 0 not in skip and contents[0] is not None:
             with open(top, 'wb') as f:
                 f.write(contents[0])
         return top
